@@ -24,7 +24,7 @@ func RunHash(outDir string, seed int64, tier string) error {
 		return err
 	}
 	defer os.RemoveAll(tmp)
-	perScheme, small := 4, true
+	perScheme, small := 3, true
 	if tier == "thorough" {
 		perScheme, small = 60, false
 	}
@@ -62,8 +62,8 @@ func RunHash(outDir string, seed int64, tier string) error {
 			if k == 1 {
 				o = groupOpts{n: 10, withKey: true, withSeed: false, withTT: true, id: "", shuffled: true}
 			}
-			if k > 1 && small && o.n > 4 {
-				o.n = 1 + o.n%4 // keep the quick tier's case files small; 10-node groups are covered by k == 1
+			if k > 1 && small && o.n > 3 {
+				o.n = 1 + o.n%3 // keep the quick tier's case files small; 10-node groups are covered by k == 1
 			}
 			grp, _ := g.group(sch, o)
 			in := map[string]interface{}{"scheme": sch.Name, "n": o.n, "id": grp.ID, "thr": grp.Threshold, "genesis": grp.GenesisTime, "tt": grp.TransitionTime, "key": o.withKey}
@@ -91,7 +91,7 @@ func RunHash(outDir string, seed int64, tier string) error {
 				same("group-order", "group hash depends on the node listing order", base, e.groupCase(p, "permuted"), in)
 			}
 			// ---- single-field perturbations of the group ----
-			{
+			if !(small && k == 1) { // the quick tier keeps the 10-node group for order invariance only
 				p := cloneGroup(grp)
 				i := g.r.Intn(len(p.Nodes))
 				p.Nodes[i].Identity.Key = g.point(sch)
